@@ -174,7 +174,17 @@ Proof.
                 (fun s0 r _ G Q0 => process_dgap (dgap s) s0 r Q0 G)
                 (fun s0 h Q0 => conj (w_height_nn h s0 (proj1 Q0)) (proj2 Q0)) s I (conj N (Z.le_refl _))) as (_ & Q & _).
     exact (proj2 Q).
-  - discriminate.
+  - (* NstBalance: the bank is untouched, and a non-native asset cannot be a native inflow *)
+    apply andb_prop in Wf. destruct Wf as [_ Nn]. apply negb_true_iff in Nn.
+    apply Easy; [reflexivity | | ].
+    + destruct (nst_balance s staker asset x) as [s'|] eqn:E; simpl; [|reflexivity].
+      refine (nst_balance_P (fun s0 => bank s0 = bank s) s staker asset x s' eq_refl _ _ _ _ E).
+      * intros s1 _ U. apply upd_sa_bank in U. exact U.
+      * intros info f s1 _ _ _ U. apply upd_sa_bank in U. exact U.
+      * intros s0 pend rk s2 p' _ B0 E0. apply record_step_shape in E0. destruct E0 as (r & s1 & _ & _ & H0). simpl in H0.
+        destruct H0 as (U & ->). apply upd_sa_bank in U. simpl. congruence.
+      * intros prop s0 k row s2 B0 E0. apply share_step_frame in E0. destruct E0 as (_ & _ & _ & _ & _ & B & _). congruence.
+    + unfold is_inflow_of, is_deposit_of. rewrite orb_false_r. unfold is_native in Nn. rewrite String.eqb_sym, Nn. reflexivity.
 Qed.
 
 (* the escrow inequality itself: escrow - value(native) never decreases *)
